@@ -405,6 +405,12 @@ def _spec_step(kind, s, o, dom=False):
 
 
 def oracle(case, obs):
+    f = _first_failure(case, obs)
+    return None if f is None else f[3]
+
+
+def _first_failure(case, obs):
+    """None, or (position ('op', i) | ('final', n), store, key parts, message) of the first departure from the dictionaries"""
     dom = case.get("env", "duror") == "subery"
     dicts = {kd: {} for kd in KINDS}        # one independent dictionary per store of the environment
     what = {"plain": "values", "io": "lists", "ioset": "ordered sets"}
@@ -413,7 +419,8 @@ def oracle(case, obs):
         want = _spec_step(kd, dicts[kd], _op_of(case, o), dom)
         got = obs["results"][i]
         if want != got:
-            return (f"op {i} {o[0]} on key {o[1]!r} of the {kd} store: store returned {got}, a dictionary of "
+            return (("op", i), kd, list(o[1]),
+                    f"op {i} {o[0]} on key {o[1]!r} of the {kd} store: store returned {got}, a dictionary of "
                     f"{what[kd]} returns {want}")
     for kd, parts, got in obs["final"]:
         k = tuple(parts)
@@ -423,14 +430,27 @@ def oracle(case, obs):
         else:
             want = ["list", list(dicts[kd].get(k, []))]
         if got != want:
-            return f"final content at key {parts!r} of the {kd} store is {got}, its dictionary has {want}"
+            return (("final", 0), kd, list(parts),
+                    f"final content at key {parts!r} of the {kd} store is {got}, its dictionary has {want}")
     return None
 
 
+def _hexlike(r):
+    """does key + '.' + r + '.' + ordinal sort AMONG the entries key + '.' + ordinal (ordinals below 16**8)?"""
+    return len(r) >= 32 and r.startswith("0" * 24)
+
+
 def classify(case, obs, why):
-    """Known-finding classes, decided from the key set each store of the case uses."""
+    """Known-finding classes, decided from the key set of the store in which the first departure happens and from the
+    operation that departs.  D27-ioscan covers exactly what the unchanged code gets wrong:
+      * a key K' = K + '.' + r with r starting like a 32-hex-digit ordinal sorts among K's entries: every scan of K
+        (and of K') can stop early - any op on these keys may depart;
+      * any other K' = K + '.' + r only sorts between K.000..0 and K.fff..f: only getLast(K) looks there - only a
+        getLast on K may depart (add / put / get / pop / rem walk K's entries from K.000..0 and are correct)."""
+    f = _first_failure(case, obs) if obs is not None else None
+    stores = [f[1]] if f else list(KINDS)
     tup = scan = False
-    for kd in KINDS:
+    for kd in stores:
         joined = {}
         for k2, parts in _keys_of(case):
             if k2 == kd:
@@ -438,8 +458,17 @@ def classify(case, obs, why):
         if any(len(v) > 1 for v in joined.values()):
             tup = True                          # two distinct keys are joined to the same db key
         js = list(joined)
-        if kd != "plain" and any(a != b and b.startswith(a + ".") for a in js for b in js):
-            scan = True                         # one key is another key + ion separator + more
+        if kd == "plain":
+            continue
+        ext = [(a, b[len(a) + 1:]) for a in js for b in js if a != b and b.startswith(a + ".")]
+        if f is None:
+            scan = scan or bool(ext)
+        elif any(_hexlike(r) for _, r in ext):
+            scan = True
+        elif ext and f[0][0] == "op":
+            o = case["ops"][f[0][1]]
+            if o[0] == "getlast" and any(a == _joined(o[1]) for a, _ in ext):
+                scan = True
     return "D27-tuplekey" if tup else "D27-ioscan" if scan else None
 
 
